@@ -162,6 +162,7 @@ class Executor:
 
     # ------------------------------------------------------------ function index
     def _index(self):
+        self.ambiguous = {}
         self.by_key = {}     # (type, trait, method) -> Fn
         self.free = {}       # last segment -> [(full name, Fn)]
         derive_trait = {"cmp": "Ord", "partial_cmp": "PartialOrd", "eq": "PartialEq", "clone": "Clone",
@@ -182,6 +183,10 @@ class Executor:
                     continue
                 tr, ty = hdr
                 self.by_key[(_last_seg(ty), _last_seg(tr) if tr else None, meth)] = f
+                if tr and "<" in tr:
+                    full = _last_seg(tr) + tr[tr.index("<"):].replace(" ", "")
+                    self.by_key[(_last_seg(ty), full, meth)] = f
+                    self.ambiguous.setdefault((_last_seg(ty), _last_seg(tr), meth), []).append(full)
                 continue
             segs = name.split("::")
             if len(segs) >= 2 and segs[-2][:1].isupper() and "<" not in name:
@@ -190,6 +195,18 @@ class Executor:
             self.free.setdefault(segs[-1], []).append((name, f))
 
     def lookup(self, ty, trait, meth):
+        if trait and "<" in trait:
+            base = _last_seg(trait)
+            full = base + trait[trait.index("<"):].replace(" ", "")
+            # normalise path-qualified generic arguments (core::num::NonZero<u128> -> NonZero<u128>)
+            f = self.by_key.get((ty, full, meth))
+            if f is not None:
+                return f
+            if len(self.ambiguous.get((ty, base, meth), [])) > 1:
+                return None
+            return self.by_key.get((ty, base, meth))
+        if trait and len(self.ambiguous.get((ty, trait, meth), [])) > 1:
+            return None
         return self.by_key.get((ty, trait, meth))
 
     # ------------------------------------------------------------ obligations
@@ -840,7 +857,9 @@ class Executor:
         if m:
             ty, tr, meth = m.group(1).strip(), _last_seg(_strip_generics(m.group(2))), m.group(3)
             tyl = _last_seg(_strip_generics(ty.lstrip("&").replace("mut ", "")))
-            f = self.lookup(tyl, tr, meth)
+            f = self.lookup(tyl, m.group(2).strip(), meth)
+            if f is None:
+                f = self.lookup(tyl, tr, meth)
             if f is None and args:
                 dt = self._dyn_type(st, args[0])
                 if dt:
